@@ -72,7 +72,7 @@ def translate():
 
 # ------------------------------------------------------------------ Coq encoding
 def c_url(u): return "(Url %d %d)" % tuple(u)
-def c_optn(x): return "None" if x is None else "(Some %d)" % x
+def c_optn(x): return "None" if x is None else "(Some %d)" % (x if x >= 0 else 999999)
 def c_cookies(cs): return C.clist("(%d,%d)" % c for c in cs)
 def c_sets(sets): return C.clist("(MsgSet %s %s %s)" % ({"bank": "SBank", "cc": "SCc", "inv": "SInv", "other": "SOther"}[k], c_url(u), C.cbool(cl)) for k, u, cl in sets)
 def c_profile(p): return "(Profile %d %d %s)" % (p["id"], p["date"], c_sets(p["sets"]))
